@@ -41,11 +41,13 @@ type world struct {
 	contentBytes map[string]string
 	txSeq        uint64
 	// reference ledgers
-	ledger *ledger
-	past   map[uint64]*pastCommittee
-	halted bool
-	dex    *dexWorld
-	cur    *node // node whose process the simulator is currently "inside"
+	ledger       *ledger
+	past         map[uint64]*pastCommittee
+	halted       bool
+	dex          *dexWorld
+	slash        *slashWorld
+	lastBlockTxs [][]byte
+	cur          *node // node whose process the simulator is currently "inside"
 }
 
 type chainRec struct {
@@ -120,6 +122,14 @@ func (w *world) buildGenesis(nVals int) {
 		p.Consensus.BlockSize = lib.MaxBlockHeaderSize + uint64(250+t.Intn(1200))
 		c.Probe("genesis_small_block_size")
 	}
+	switch t.Pick(2, 2, 1) {
+	case 1: // protocol v2 from genesis: committee-scoped slashing and reward rules
+		p.Consensus.ProtocolVersion = fsm.NewProtocolVersion(0, 2)
+		c.Probe("genesis_protocol_v2")
+	case 2: // upgrade to v2 in the middle of the run
+		p.Consensus.ProtocolVersion = fsm.NewProtocolVersion(uint64(2+t.Intn(5)), 2)
+		c.Probe("genesis_protocol_v2_upgrade_mid_run")
+	}
 	if err := p.Check(); err != nil {
 		c.Harnessf("generated params invalid: %v", err)
 	}
@@ -165,6 +175,9 @@ func (w *world) buildGenesis(nVals int) {
 	}
 	if c.Prop == "C20" {
 		w.dexGenesis()
+	}
+	if c.Prop == "C14" {
+		w.slashGenesis()
 	}
 	// pools: DAO and the reward pool of chain 1 start non-empty in some runs
 	if t.Chance(1, 2) {
@@ -251,7 +264,7 @@ func (w *world) certify(pr *proposal, vs lib.ValidatorSet, minimal bool) *lib.Qu
 	}
 	var power uint64
 	for _, cd := range cands {
-		if power >= vs.MinimumMaj23 && (minimal || c.T.Chance(1, 3)) {
+		if power >= vs.MinimumMaj23 && (minimal || (w.slash == nil && c.T.Chance(1, 3))) {
 			c.Probe("certificate_with_non_signers")
 			break
 		}
